@@ -150,6 +150,33 @@ class _Normalise(ast.NodeTransformer):
                 n.args = [n.args[1]]
         return n
 
+    def _comp(self, n):
+        self.generic_visit(n)
+        # [f(v) for v in list(zip(a, b))] == [f(v) for v in zip(a, b)]: the snapshot taken by list() / tuple() is only observable when the
+        # comprehension itself changes what is being iterated; required: the zipped operands are plain names that the element / condition
+        # expressions only read (no method call on them, not passed whole to a call)
+        for g in n.generators:
+            it = g.iter
+            if isinstance(it, ast.Call) and isinstance(it.func, ast.Name) and it.func.id in ("list", "tuple") and len(it.args) == 1 and \
+                    not it.keywords and isinstance(it.args[0], ast.Call) and isinstance(it.args[0].func, ast.Name) and \
+                    it.args[0].func.id in ("zip", "range", "enumerate", "reversed", "map"):
+                inner = it.args[0]
+                ops = []
+                ok = True
+                for a in inner.args:
+                    a = a.value if isinstance(a, ast.Starred) else a
+                    if isinstance(a, ast.Name):
+                        ops.append(a.id)
+                    elif not isinstance(a, ast.Constant):
+                        ok = ok and _arg_pure(a) and not any(isinstance(x, ast.Call) for x in ast.walk(a))
+                        ops += [x.id for x in ast.walk(a) if isinstance(x, ast.Name)]
+                parts = [getattr(n, "elt", None), getattr(n, "key", None), getattr(n, "value", None)] + list(g.ifs)
+                if ok and inner.func.id != "map" and not inner.keywords and _untouched([ast.Expr(value=p_) for p_ in parts if p_ is not None], None, names=set(ops)):
+                    g.iter = inner
+        return n
+
+    visit_ListComp = visit_SetComp = visit_GeneratorExp = visit_DictComp = _comp
+
     def visit_Subscript(self, n):
         self.generic_visit(n)
         # x[None, :, :] == x[None]  (trailing full slices select everything)
@@ -159,6 +186,17 @@ class _Normalise(ast.NodeTransformer):
                 e.pop()
             if len(e) != len(n.slice.elts):
                 n.slice = e[0] if len(e) == 1 else ast.copy_location(ast.Tuple(elts=e, ctx=ast.Load()), n.slice)
+        return n
+
+    def visit_Compare(self, n):
+        self.generic_visit(n)
+        # N24: a chained comparison is the conjunction of its links; the shared operands are evaluated once, which only matters when they
+        # have effects, so the split is done for pure operands only:  a <= b < c  ==  a <= b and b < c
+        if len(n.ops) >= 2 and all(_arg_pure(c) and not any(isinstance(x, ast.Call) for x in ast.walk(c)) for c in n.comparators[:-1]):
+            ops = [n.left] + list(n.comparators)
+            links = [ast.copy_location(ast.Compare(left=copy.deepcopy(ops[i]) if i else ops[i], ops=[n.ops[i]], comparators=[copy.deepcopy(ops[i + 1]) if i + 1 < len(ops) - 1 else ops[i + 1]]), n)
+                     for i in range(len(n.ops))]
+            return ast.copy_location(ast.BoolOp(op=ast.And(), values=links), n)
         return n
 
     def visit_BinOp(self, n):
@@ -371,6 +409,19 @@ class Aligner:
         self.idx_ctx = index_context_ids(cfunc)
         self.actions = []
         self._tail = {}
+        # locals whose only definition is a view / alias of another local (`v = A[i]`, `v = A`): such a local is never A itself
+        self.view_of = {}
+        stores = {}
+        for n in ast.walk(cfunc):
+            if isinstance(n, ast.Name) and isinstance(n.ctx, ast.Store):
+                stores[n.id] = stores.get(n.id, 0) + 1
+        for n in ast.walk(cfunc):
+            if isinstance(n, ast.Assign) and len(n.targets) == 1 and isinstance(n.targets[0], ast.Name) and stores.get(n.targets[0].id) == 1:
+                b = n.value
+                while isinstance(b, (ast.Subscript, ast.Attribute)):
+                    b = b.value
+                if isinstance(b, ast.Name) and isinstance(n.value, (ast.Subscript, ast.Name)):
+                    self.view_of[n.targets[0].id] = b.id
 
     def vote(self, a, b):
         if a in self.cl and b in self.rl:
@@ -502,6 +553,8 @@ class Aligner:
                 own[a] = v
         for (a, b), v in sorted(self.votes.items(), key=lambda kv: (-kv[1], kv[0])):
             if a in out or b in taken:
+                continue
+            if a != b and self.view_of.get(a) == b:
                 continue
             if a != b and b in self.cl:
                 unanimous = own.get(a, 0) == 0 and v >= 2
@@ -867,6 +920,13 @@ def shape_index_spelling(cfunc, rfunc):
     variant is a rank-keeping conversion of itself (`p = p.to(..)`, `p = torch.clone(p)` ...)."""
     ranks = _doc_ranks(rfunc)
     acts = []
+    if any("jit" in ast.unparse(d) for d in cfunc.decorator_list):
+        # inside a numba kernel `a, b = p.shape` only compiles for a 2-d p: the unpack itself fixes the rank
+        for n in ast.walk(cfunc):
+            if isinstance(n, ast.Assign) and len(n.targets) == 1 and isinstance(n.targets[0], ast.Tuple) and isinstance(n.value, ast.Attribute) and \
+                    n.value.attr == "shape" and isinstance(n.value.value, ast.Name) and n.value.value.id in params_of(cfunc) and \
+                    not any(isinstance(e, ast.Starred) for e in n.targets[0].elts):
+                ranks.setdefault(n.value.value.id, len(n.targets[0].elts))
     # N21: `a, b, c = p.shape` for a parameter of documented rank 3 is three reads p.shape[0], p.shape[1], p.shape[2] (unless the
     # reference unpacks the same shape itself)
     ref_unpacks = {ast.unparse(n.value) for n in ast.walk(rfunc) if isinstance(n, ast.Assign) and isinstance(n.targets[0], ast.Tuple)}
@@ -912,7 +972,14 @@ def shape_index_spelling(cfunc, rfunc):
                 n.slice = ast.copy_location(ast.Constant(value=alt) if alt >= 0 else ast.UnaryOp(op=ast.USub(), operand=ast.Constant(value=-alt)), n.slice)
                 acts.append("shape-index %s.shape[%d]->[%d] (documented rank %d)" % (p, v, alt, r))
     # N18: len(p) == p.shape[0] for a tensor / array parameter (any rank >= 1), spelled the way the reference spells it
-    for p, r in _doc_tensors(rfunc).items():
+    arrays = dict(_doc_tensors(rfunc))
+    for p in params_of(rfunc) & params_of(cfunc):
+        # array-evident without a docstring: the reference reads p.shape / p.dtype, or indexes p with a tuple (p[i, j])
+        if p not in arrays and any((isinstance(n, ast.Attribute) and n.attr in ("shape", "dtype", "ndim") and isinstance(n.value, ast.Name) and n.value.id == p) or
+                                   (isinstance(n, ast.Subscript) and isinstance(n.value, ast.Name) and n.value.id == p and isinstance(n.slice, ast.Tuple))
+                                   for n in ast.walk(rfunc)):
+            arrays[p] = ranks.get(p)
+    for p, r in arrays.items():
         if p not in params_of(cfunc) or (r is not None and r < 1) or not rank_stable(cfunc, p):
             continue
         def lens(f):
@@ -1053,9 +1120,11 @@ def call_argument_form(cfunc, rfunc):
 
 
 # ------------------------------------------------------------------ N22: for i in range(len(E)) .. E[i]   <->   for i, x in enumerate(E)
-def _untouched(body, name):
-    """`name` is neither rebound nor (syntactically) mutated in the statements: no store to it or into it, no method call on it, not
-    passed whole to a call, no nested scope mentions it"""
+def _untouched(body, name, names=None):
+    """`name` (or every name in `names`) is neither rebound nor (syntactically) mutated in the statements: no store to it or into it, no
+    method call on it, not passed whole to a call, no nested scope mentions it"""
+    if names is not None:
+        return all(_untouched(body, nm) for nm in names)
     for st in body:
         for x in ast.walk(st):
             if isinstance(x, ast.Name) and x.id == name and isinstance(x.ctx, (ast.Store, ast.Del)):
@@ -1120,6 +1189,39 @@ def loop_spelling(cfunc, rfunc):
     cl, rl = loops(cfunc), loops(rfunc)
     names = {x.id for x in ast.walk(cfunc) if isinstance(x, ast.Name)}
     acts = []
+    # an enumerate() whose index nobody reads:  for j, x in enumerate(E)  ==  for x in E   (spelled the way the reference spells it)
+    def unused_enum(f):
+        loads = {x.id for x in ast.walk(f) if isinstance(x, ast.Name) and isinstance(x.ctx, (ast.Load, ast.Del))}
+        out = {}
+        for lp in ast.walk(f):
+            if isinstance(lp, ast.For) and isinstance(lp.iter, ast.Call) and isinstance(lp.iter.func, ast.Name) and lp.iter.func.id == "enumerate" and \
+                    len(lp.iter.args) == 1 and not lp.iter.keywords and isinstance(lp.target, ast.Tuple) and len(lp.target.elts) == 2 and \
+                    isinstance(lp.target.elts[0], ast.Name) and lp.target.elts[0].id not in loads:
+                out.setdefault(ast.unparse(lp.iter.args[0]), []).append(lp)
+        return out
+    def plain(f):
+        out = {}
+        for lp in ast.walk(f):
+            if isinstance(lp, ast.For) and not (isinstance(lp.iter, ast.Call) and isinstance(lp.iter.func, ast.Name) and lp.iter.func.id == "enumerate"):
+                out.setdefault(ast.unparse(lp.iter), []).append(lp)
+        return out
+    r_enum, c_enum, r_plain, c_plain = unused_enum(rfunc), unused_enum(cfunc), plain(rfunc), plain(cfunc)
+    for e, lps in c_plain.items():
+        if len(lps) == 1 and len(r_enum.get(e, ())) == 1 and e not in r_plain:
+            lp, rlp = lps[0], r_enum[e][0]
+            j = rlp.target.elts[0].id
+            if j in names:
+                continue
+            lp.iter = ast.copy_location(ast.Call(func=ast.Name(id="enumerate", ctx=ast.Load()), args=[lp.iter], keywords=[]), lp.iter)
+            lp.target = ast.copy_location(ast.Tuple(elts=[ast.Name(id=j, ctx=ast.Store()), lp.target], ctx=ast.Store()), lp.target)
+            names.add(j)
+            acts.append("loop-form unused enumerate index restored over %s" % e[:30])
+    for e, lps in c_enum.items():
+        if len(lps) == 1 and len(r_plain.get(e, ())) == 1 and e not in r_enum:
+            lp = lps[0]
+            lp.target = lp.target.elts[1]
+            lp.iter = lp.iter.args[0]
+            acts.append("loop-form unused enumerate index dropped over %s" % e[:30])
     for e, cs in cl.items():
         rs = rl.get(e, [])
         if len(cs) != 1 or len(rs) != 1:
@@ -1165,6 +1267,133 @@ def loop_spelling(cfunc, rfunc):
     if acts:
         ast.fix_missing_locations(cfunc)
     return acts
+
+
+# ------------------------------------------------------------------ N25: x.ndim == len(x.shape) ; torch.f(x, ..) == x.f(..)
+TORCH_DUAL = ("abs", "sum", "mean", "max", "min", "argmax", "argmin", "cumsum", "exp", "log", "sqrt", "square", "sign", "prod", "any", "all",
+              "std", "var", "flatten", "squeeze", "unsqueeze", "permute", "reshape", "sub", "add", "mul", "div", "chunk", "amax", "amin",
+              "logsumexp", "softmax", "log_softmax", "isnan", "nan_to_num", "round", "floor", "ceil", "clamp", "argsort", "sort", "unique")
+
+
+def tensor_spelling_synonyms(cfunc, rfunc):
+    """Two families of synonyms, each re-spelled the way the reference function spells it (and only when the reference uses ONE spelling):
+      * the number of dimensions:  x.ndim  ==  len(x.shape)            (torch and numpy)
+      * function / method form of a torch operation:  torch.f(x, a..)  ==  x.f(a..)   for the operations in TORCH_DUAL
+    The method form of an expression whose value is not a tensor does not exist (AttributeError), so the two forms can only differ in
+    whether the code runs at all, never in what it computes."""
+    acts = []
+    def ndims(f):
+        a = [n for n in ast.walk(f) if isinstance(n, ast.Attribute) and n.attr == "ndim" and isinstance(n.ctx, ast.Load)]
+        b = [n for n in ast.walk(f) if isinstance(n, ast.Call) and isinstance(n.func, ast.Name) and n.func.id == "len" and len(n.args) == 1 and
+             not n.keywords and isinstance(n.args[0], ast.Attribute) and n.args[0].attr == "shape"]
+        return a, b
+    ra, rb = ndims(rfunc)
+    ca, cb = ndims(cfunc)
+    if ca and rb and not ra:
+        class _A(ast.NodeTransformer):
+            def visit_Attribute(self, n):
+                self.generic_visit(n)
+                if n.attr == "ndim" and isinstance(n.ctx, ast.Load):
+                    return ast.copy_location(ast.Call(func=ast.Name(id="len", ctx=ast.Load()), args=[ast.Attribute(value=n.value, attr="shape", ctx=ast.Load())], keywords=[]), n)
+                return n
+        _A().visit(cfunc)
+        acts.append("ndim->len(shape)")
+    elif cb and ra and not rb:
+        class _B(ast.NodeTransformer):
+            def visit_Call(self, n):
+                self.generic_visit(n)
+                if isinstance(n.func, ast.Name) and n.func.id == "len" and len(n.args) == 1 and not n.keywords and \
+                        isinstance(n.args[0], ast.Attribute) and n.args[0].attr == "shape":
+                    return ast.copy_location(ast.Attribute(value=n.args[0].value, attr="ndim", ctx=ast.Load()), n)
+                return n
+        _B().visit(cfunc)
+        acts.append("len(shape)->ndim")
+
+    def forms(f):
+        out = {}
+        for n in ast.walk(f):
+            if isinstance(n, ast.Call) and isinstance(n.func, ast.Attribute) and n.func.attr in TORCH_DUAL:
+                v = n.func.value
+                if isinstance(v, ast.Name) and v.id == "torch":
+                    if n.args and not isinstance(n.args[0], ast.Starred):
+                        out.setdefault(n.func.attr, {}).setdefault("torch", []).append(n)
+                elif not (isinstance(v, ast.Name) and v.id in ("numpy", "np", "math", "F", "itertools", "random")) and \
+                        not (isinstance(v, ast.Attribute) and ast.unparse(v) in ("torch.nn.functional", "numpy.random")):
+                    out.setdefault(n.func.attr, {}).setdefault("method", []).append(n)
+        return out
+    rf, cf = forms(rfunc), forms(cfunc)
+    for f_, kinds in cf.items():
+        want = rf.get(f_)
+        if not want or len(want) != 1:
+            continue
+        want = next(iter(want))
+        for n in kinds.get("method" if want == "torch" else "torch", []):
+            if want == "torch":
+                n.args = [n.func.value] + list(n.args)
+                n.func = ast.copy_location(ast.Attribute(value=ast.Name(id="torch", ctx=ast.Load()), attr=f_, ctx=ast.Load()), n.func)
+            else:
+                if any(k.arg in ("input", "out") for k in n.keywords):
+                    continue
+                recv = n.args[0]
+                n.args = list(n.args[1:])
+                n.func = ast.copy_location(ast.Attribute(value=recv, attr=f_, ctx=ast.Load()), n.func)
+            acts.append("%s-form %s" % (want, f_))
+    if acts:
+        ast.fix_missing_locations(cfunc)
+    return acts
+
+
+# ------------------------------------------------------------------ N23: `if c: x = E`  <->  `x = E if c else x`
+def conditional_assignment_form(cfunc, rfunc):
+    """`if c: x = E` (no else, x a plain name) assigns exactly what `x = E if c else x` assigns.  When the reference writes the update of
+    x as such a conditional expression and the variant as an if-statement, the variant is re-spelled as the conditional expression with
+    the reference's arm order (`x = x if not-c else E` when the reference keeps x in the first arm)."""
+    ref_forms = {}
+    for n in ast.walk(rfunc):
+        if isinstance(n, ast.Assign) and len(n.targets) == 1 and isinstance(n.targets[0], ast.Name) and isinstance(n.value, ast.IfExp):
+            x = n.targets[0].id
+            if isinstance(n.value.body, ast.Name) and n.value.body.id == x:
+                ref_forms.setdefault(x, set()).add("keep-first")
+            elif isinstance(n.value.orelse, ast.Name) and n.value.orelse.id == x:
+                ref_forms.setdefault(x, set()).add("keep-last")
+    if not ref_forms:
+        return []
+    ref_ifs = {n.body[0].targets[0].id for n in ast.walk(rfunc) if isinstance(n, ast.If) and not n.orelse and len(n.body) == 1 and
+               isinstance(n.body[0], ast.Assign) and len(n.body[0].targets) == 1 and isinstance(n.body[0].targets[0], ast.Name)}
+    acts = []
+
+    def neg(t):
+        if isinstance(t, ast.Compare) and len(t.ops) == 1 and type(t.ops[0]) in NEG_CMP:
+            return ast.copy_location(ast.Compare(left=t.left, ops=[NEG_CMP[type(t.ops[0])]()], comparators=t.comparators), t)
+        if isinstance(t, ast.UnaryOp) and isinstance(t.op, ast.Not):
+            return t.operand
+        return ast.copy_location(ast.UnaryOp(op=ast.Not(), operand=t), t)
+
+    def walk(stmts):
+        for i, st in enumerate(stmts):
+            for fld in ("body", "orelse", "finalbody"):
+                if isinstance(getattr(st, fld, None), list) and not isinstance(st, SCOPES):
+                    walk(getattr(st, fld))
+            for h in getattr(st, "handlers", []) or []:
+                walk(h.body)
+            if isinstance(st, ast.If) and not st.orelse and len(st.body) == 1 and isinstance(st.body[0], ast.Assign) and \
+                    len(st.body[0].targets) == 1 and isinstance(st.body[0].targets[0], ast.Name):
+                x = st.body[0].targets[0].id
+                if len(ref_forms.get(x, ())) == 1 and x not in ref_ifs:
+                    form = next(iter(ref_forms[x]))
+                    keep = ast.Name(id=x, ctx=ast.Load())
+                    val = st.body[0].value
+                    ife = ast.IfExp(test=neg(st.test), body=keep, orelse=val) if form == "keep-first" else ast.IfExp(test=st.test, body=val, orelse=keep)
+                    stmts[i] = ast.copy_location(ast.Assign(targets=[ast.Name(id=x, ctx=ast.Store())], value=ast.copy_location(ife, st)), st)
+                    acts.append("if-to-conditional-expression %s" % x)
+    walk(cfunc.body)
+    if acts:
+        ast.fix_missing_locations(cfunc)
+    return acts
+
+
+NEG_CMP = {ast.Lt: ast.GtE, ast.LtE: ast.Gt, ast.Gt: ast.LtE, ast.GtE: ast.Lt, ast.Eq: ast.NotEq, ast.NotEq: ast.Eq,
+           ast.Is: ast.IsNot, ast.IsNot: ast.Is, ast.In: ast.NotIn, ast.NotIn: ast.In}
 
 
 # ------------------------------------------------------------------ N20: dim= / axis= / positional dimension of reductions
@@ -1237,8 +1466,10 @@ def canonicalise_function(cfunc, rfunc):
     normalise(rfunc)
     pre_acts = shape_index_spelling(cfunc, rfunc)
     pre_acts += call_argument_form(cfunc, rfunc)
+    pre_acts += tensor_spelling_synonyms(cfunc, rfunc)
     pre_acts += dimension_argument_form(cfunc, rfunc)
     pre_acts += loop_spelling(cfunc, rfunc)
+    pre_acts += conditional_assignment_form(cfunc, rfunc)
     fk = None if any(isinstance(n, ast.Return) and n.value is not None for n in ast.walk(cfunc)) else "func"
     al = Aligner(cfunc, rfunc)
     al.stmts(cfunc.body, rfunc.body, fk, cfunc.body if fk else None)
